@@ -2,9 +2,9 @@
    Statements + `exact` only; proofs are in Proofs/C14*.v.  The model (Model/C14.v) is tied to
    partitura/performance.py by the correspondence run by harness/props/c14.py on every check;
    the specification (Model/C14_Spec.v) is defined directly over the unsorted control stream. *)
-From PV Require Import Lib.Base Lib.Round Model.C12 Model.C14 Model.C14_Spec
-  Proofs.C14_so Proofs.C14_spec Proofs.C14 Proofs.C14_hist.
-From Coq Require Import QArith Qminmax Qabs.
+From PV Require Import Lib.Base Lib.Round Model.C12 Model.C14 Model.C14_Spec Model.C14_Note Model.C14_Trk
+  Proofs.C14_so Proofs.C14_spec Proofs.C14 Proofs.C14_hist Proofs.C14_note Proofs.C14_trk Proofs.C14_perm.
+From Coq Require Import QArith Qminmax Qabs Permutation.
 #[local] Open Scope Q_scope.
 
 (* O2a  every note sounds at least until its release -- all note lists, control streams, thresholds *)
@@ -170,3 +170,190 @@ Theorem track_renumber_injective : forall pairs,
   (forall a b k, track_map pairs a = Some k -> track_map pairs b = Some k -> a = b).
 Proof. exact track_renumber_total_injective. Qed.
 Print Assumptions track_renumber_injective.
+
+(* ===== field validation of performed notes (PerformedNote._validate_*, Model/C14_Note.v) ===== *)
+
+(* V1  PerformedNote(dict) succeeds exactly for the dicts the statement is about: pitch and velocity
+   MIDI values (velocity may be absent), onset and release present with 0 <= onset <= release, a
+   carried sounding end not before the release, stored ticks non-negative and ordered -- all dicts *)
+Theorem note_accepted_iff_valid : forall d, (exists n, pn_new d = Some n) <-> valid_dict d.
+Proof. exact pn_new_accepts_iff. Qed.
+Print Assumptions note_accepted_iff_valid.
+
+(* V2  what an accepted dict stores: the given fields, the release as sounding end and velocity 60
+   where absent; the stored note satisfies 0 <= onset <= release <= sounding end *)
+Theorem note_stored_fields : forall d n, pn_new d = Some n ->
+  pn_pitch n = d_pitch d /\ d_on d = Some (pn_on n) /\ d_off d = Some (pn_off n) /\
+  pn_so n = dflt (d_so d) (pn_off n) /\ pn_vel n = dflt (d_vel d) 60%Z /\
+  pn_ontick n = d_ontick d /\ pn_offtick n = d_offtick d /\ wf_note n.
+Proof. exact pn_new_fields. Qed.
+Print Assumptions note_stored_fields.
+
+(* V3  note["sound_off"] = v is accepted exactly when v is not before the release *)
+Theorem sound_off_assignment_accepted_iff : forall n v, 0 <= pn_off n ->
+  ((exists n', pn_set n (ESo v) = Some n') <-> pn_off n <= v).
+Proof. exact pn_set_so_iff. Qed.
+Print Assumptions sound_off_assignment_accepted_iff.
+
+(* V4  the recomputation (threshold setter) writes the computed ends back through the validated
+   assignment and never raises, whatever sounding ends the notes held before -- also ends BELOW
+   the release, left behind when a release was moved later -- for all notes with 0 <= onset <=
+   release, all control streams and thresholds; afterwards every note is well formed and the column
+   is sound_offs of the current notes *)
+Theorem recompute_never_raises : forall thr ns cs, Forall timed ns ->
+  exists ns', recompute thr ns cs = Some ns' /\ map pn_so ns' = sound_offs thr (map to_note ns) cs /\
+              map to_note ns' = map to_note ns /\ Forall wf_note ns' /\ map pn_ontick ns' = map pn_ontick ns.
+Proof. exact recompute_total_lemma. Qed.
+Print Assumptions recompute_never_raises.
+
+(* O1 at the level of note dicts: building a part from dicts the statement is about (optional keys
+   absent, carrying a sounding end, carrying stored ticks) never fails and gives the column of
+   sound_offs; and a part is built only if every dict passes the field checks *)
+Theorem part_from_dicts_total : forall thr ds cs, Forall valid_dict ds ->
+  exists ns, pp_new thr ds cs = Some ns /\
+             map pn_so ns = sound_offs thr (map to_note ns) cs /\ Forall wf_note ns /\
+             Forall2 (fun d n => pn_pitch n = d_pitch d /\ d_on d = Some (pn_on n) /\ d_off d = Some (pn_off n) /\
+                                 pn_vel n = dflt (d_vel d) 60%Z /\ pn_ontick n = d_ontick d) ds ns.
+Proof. exact pp_new_total_lemma. Qed.
+Print Assumptions part_from_dicts_total.
+
+Theorem part_from_dicts_only_valid : forall thr ds cs ns, pp_new thr ds cs = Some ns -> Forall valid_dict ds.
+Proof. exact pp_new_some_valid. Qed.
+Print Assumptions part_from_dicts_only_valid.
+
+(* V5  moving the release of a note of a well-formed part to any v >= onset is accepted (also
+   beyond the stored sounding end, which is then stale and below the release); the next threshold
+   assignment never raises and leaves every note well formed with the recomputed column *)
+Theorem release_edit_repaired : forall thr ns cs i n v,
+  Forall wf_note ns -> nth_error ns i = Some n -> pn_on n <= v ->
+  exists n', pn_set n (EOff v) = Some n' /\
+  let ns1 := firstn i ns ++ n' :: skipn (S i) ns in
+  exists ns', recompute thr ns1 cs = Some ns' /\ Forall wf_note ns' /\
+              map pn_so ns' = sound_offs thr (map to_note ns1) cs.
+Proof. exact release_edit_repaired_lemma. Qed.
+Print Assumptions release_edit_repaired.
+
+(* non-vacuity: a release moved past the stored end gives a note that is NOT well formed; the
+   recomputation under a held pedal repairs it; dicts with stored ticks / a sounding end below the
+   release / a zero-length note with velocity 0 are accepted, rejected, accepted *)
+Theorem release_edit_and_validation_example :
+  pn_set ex_stale (EOff 5) = Some (mkPN 60 1 5 3 64 None None) /\
+  ~ wf_note (mkPN 60 1 5 3 64 None None) /\
+  recompute 64 [mkPN 60 1 5 3 64 None None] [mkCtrl 64 0 127; mkCtrl 64 7 0] = Some [mkPN 60 1 5 7 64 None None] /\
+  pn_new (mkND 60 (Some 1) (Some 2) (Some 3) None (Some 480%Z) (Some 960%Z)) = Some (mkPN 60 1 2 3 60 (Some 480%Z) (Some 960%Z)) /\
+  pn_new (mkND 60 (Some 1) (Some 2) (Some (3#2)) None None None) = None /\
+  pn_new (mkND 60 (Some 2) (Some 2) None (Some 0%Z) None None) = Some (mkPN 60 2 2 2 0 None None).
+Proof. exact release_edit_example. Qed.
+Print Assumptions release_edit_and_validation_example.
+
+(* ===== tabular view of notes with stored ticks, and its inverse through the dict constructor ===== *)
+
+(* O4a'  a note whose stored onset tick is the conversion of its onset under the part's ppq / mpq
+   (or that stores none) has the row of the plain note: the stored tick changes nothing *)
+Theorem stored_ticks_row : forall ppq mpq n, ticks_consistent ppq mpq n ->
+  na_row_n ppq mpq n = na_row ppq mpq (to_note n, pn_so n).
+Proof. exact na_row_n_plain. Qed.
+Print Assumptions stored_ticks_row.
+
+Theorem onset_tick_agrees_stored : forall ppq mpq n, ticks_consistent ppq mpq n ->
+  Qabs (inject_Z (1000000 * ppq) * r_on (na_row_n ppq mpq n) / inject_Z mpq
+        - inject_Z (r_on_tick (na_row_n ppq mpq n))) <= 1 # 2.
+Proof. exact onset_tick_agrees_n_lemma. Qed.
+Print Assumptions onset_tick_agrees_stored.
+
+Theorem duration_tick_agrees_stored : forall ppq mpq n, ticks_consistent ppq mpq n -> pn_so n == pn_off n ->
+  Qabs (inject_Z (1000000 * ppq) * r_dur (na_row_n ppq mpq n) / inject_Z mpq
+        - inject_Z (r_dur_tick (na_row_n ppq mpq n))) <= 1.
+Proof. exact duration_tick_agrees_n_lemma. Qed.
+Print Assumptions duration_tick_agrees_stored.
+
+(* O4b'  the duration in seconds reaches the sounding end, stored ticks or not *)
+Theorem duration_sec_is_sounding_end : forall ppq mpq n,
+  r_on (na_row_n ppq mpq n) + r_dur (na_row_n ppq mpq n) == pn_so n.
+Proof. exact duration_sec_is_sounding_end_lemma. Qed.
+Print Assumptions duration_sec_is_sounding_end.
+
+(* O4c'  from_note_array(note_array()) through the dict constructor (every row becomes a dict that
+   carries note_off = sound_off = onset + duration and passes the field checks): never fails on a
+   well-formed part with MIDI pitches and velocities, and gives back pitches, velocities, onsets
+   and sounding ends (the new releases are the old sounding ends) *)
+Theorem roundtrip_through_dicts_total : forall ppq mpq ns,
+  Forall wf_note ns -> Forall (fun n => (0 <= pn_pitch n <= 127)%Z /\ (0 <= pn_vel n <= 127)%Z) ns ->
+  exists ns', from_note_array_n (note_array_n ppq mpq ns) = Some ns' /\
+              Forall2 (fun n m => pn_pitch m = pn_pitch n /\ pn_vel m = pn_vel n /\ pn_on m = pn_on n /\
+                                  pn_so m == pn_so n /\ pn_off m == pn_so n) ns ns'.
+Proof. exact roundtrip_n_lemma. Qed.
+Print Assumptions roundtrip_through_dicts_total.
+
+(* ===== track renumbering as the code does it (Model/C14_Trk.v) ===== *)
+
+(* O5a  every part keeps its numbers of notes, controls and program changes *)
+Theorem sanitize_shape : forall ps, map shape (sanitize ps) = map shape ps.
+Proof. exact sanitize_shape_lemma. Qed.
+Print Assumptions sanitize_shape.
+
+(* O5b  two events (note, control or program change, at positions k1, k2 in the order part by
+   part) get the same new number exactly when they are events of the same part that had the same
+   track before (an absent key reads as -1): unique across parts, nothing mixed, nothing split *)
+Theorem sanitize_partition : forall ps k1 k2 a b x y,
+  nth_error (all_pairs 0 ps) k1 = Some a -> nth_error (all_pairs 0 ps) k2 = Some b ->
+  nth_error (new_numbers ps) k1 = Some x -> nth_error (new_numbers ps) k2 = Some y ->
+  (x = y <-> a = b).
+Proof. exact sanitize_partition_lemma. Qed.
+Print Assumptions sanitize_partition.
+
+Theorem sanitize_unique_across_parts : forall ps k1 k2 a b x y,
+  nth_error (all_pairs 0 ps) k1 = Some a -> nth_error (all_pairs 0 ps) k2 = Some b ->
+  nth_error (new_numbers ps) k1 = Some x -> nth_error (new_numbers ps) k2 = Some y ->
+  fst a <> fst b -> x <> y.
+Proof. exact sanitize_unique_across_parts_lemma. Qed.
+Print Assumptions sanitize_unique_across_parts.
+
+(* O5c  renumbering the renumbered parts again keeps the partition *)
+Theorem sanitize_again_partition : forall ps k1 k2 a b x y,
+  nth_error (all_pairs 0 ps) k1 = Some a -> nth_error (all_pairs 0 ps) k2 = Some b ->
+  nth_error (new_numbers (sanitize ps)) k1 = Some x -> nth_error (new_numbers (sanitize ps)) k2 = Some y ->
+  (x = y <-> a = b).
+Proof. exact sanitize_again_partition_lemma. Qed.
+Print Assumptions sanitize_again_partition.
+
+(* O5d  every new number lies in 0 .. num_tracks - 1 (the track_map lookup cannot fail) *)
+Theorem new_numbers_range : forall ps x, In x (new_numbers ps) -> (0 <= x < num_tracks ps)%Z.
+Proof. exact new_numbers_range_lemma. Qed.
+Print Assumptions new_numbers_range.
+
+Theorem sanitize_worked_example :
+  sanitize ex_parts = [([Some 1; Some 2; Some 0], [Some 0; Some 1], [Some 3]); ([Some 4; Some 6], [Some 5], [])]%Z /\
+  sanitize (sanitize ex_parts) = sanitize ex_parts /\ num_tracks ex_parts = 7%Z.
+Proof. exact sanitize_example. Qed.
+Print Assumptions sanitize_worked_example.
+
+(* ===== control streams in which other controllers are interleaved ===== *)
+
+(* O2e  only controller 64 matters: the sounding ends computed from a control stream are those
+   computed from its sustain-pedal events alone, so two streams with the same pedal events (other
+   controllers interleaved anywhere, in any number) give the same column -- all streams *)
+Theorem other_controllers_ignored : forall thr ns cs,
+  sound_offs thr ns cs = sound_offs thr ns (pedal_events cs).
+Proof. exact other_controllers_ignored_lemma. Qed.
+Print Assumptions other_controllers_ignored.
+
+Theorem other_controllers_interleaved : forall thr ns cs cs',
+  pedal_events cs = pedal_events cs' -> sound_offs thr ns cs = sound_offs thr ns cs'.
+Proof. exact other_controllers_interleaved_lemma. Qed.
+Print Assumptions other_controllers_interleaved.
+
+(* O2f  control streams in arbitrary (unsorted) order: listing the same control events in another
+   order gives the same sounding ends, provided the pedal events have pairwise distinct times
+   (numpy leaves the order of equal sort keys open) -- all permutations *)
+Theorem control_order_irrelevant : forall thr ns cs cs',
+  Permutation cs cs' -> distinct_pedal_times cs -> sound_offs thr ns cs = sound_offs thr ns cs'.
+Proof. exact control_order_irrelevant_lemma. Qed.
+Print Assumptions control_order_irrelevant.
+
+Theorem control_order_worked_example :
+  let cs := [mkCtrl 64 5 0; mkCtrl 7 2 100; mkCtrl 64 (1#2) 100] in
+  let cs' := [mkCtrl 64 (1#2) 100; mkCtrl 64 5 0; mkCtrl 7 2 100] in
+  Permutation cs cs' /\ distinct_pedal_times cs /\ sound_offs 64 ex_notes cs' = [3; 5; 6].
+Proof. exact control_order_example. Qed.
+Print Assumptions control_order_worked_example.
